@@ -1435,10 +1435,12 @@ func TestCheck(t *testing.T) {
 		r.Violate(k, f.detail)
 	}
 	r.Set("divergent_runs_per_key", counts)
+	batchAtomicity(r)
 	r.Assume = append(r.Assume,
 		"pebble runs on vfs.NewMem(); the on-disk format/FS layer is trusted",
 		"a backend state is a function of the abstract map: every representative is built by direct Puts (and re-used across ≤120 writes), not by replaying the BFS path",
-		"schedules are interleavings of whole interface calls (each call is linearizable); goroutine-level races are out of scope",
+		"differential search: schedules are interleavings of whole interface calls; below that granularity only the commit of an in-memory batch is scheduled (atomic_test.go: every interleaving of the lock acquisitions of a committing writer with a consistent reader or a second writer, "+
+			"db/memory's RWMutex replaced by verif/mc/schedsync through a build overlay); unsynchronised accesses (data races proper) are out of scope",
 		"relative moves (Next/Prev) on an exhausted iterator other than Prev-after-failed-Seek and the first move of a fresh iterator are outside the documented contract: recorded under outside_contract_divergences, never a violation",
 		"Batch.Size() is compared only for batches without DeleteRange")
 	pprof.StopCPUProfile()
